@@ -350,6 +350,9 @@ fn check_receiver(w: &World, st: &Setup, p: usize, tval: &Val, fval: &Val, n: us
             _ => {}
         }
     }
+    if let Some(x) = crate::oracle::receiver_conservation(w, "C06") {
+        return Some(x);
+    }
     let outs: Vec<&RecvOutcome> = w.recvs.iter().map(|r| &r.outcome).collect();
     // the whole messages in front are delivered first
     for i in 0..p {
